@@ -63,23 +63,24 @@ def main():
     res["confirmed"] = bool(ok)
     detected = {}
     if ok:
-        rc, out = sh("git -C /repo status --porcelain")
-        if out.strip():
-            print("refusing: /repo not clean")
-            sys.exit(2)
-        rc, out = sh("git -C /repo apply %s || git -C /repo apply --3way %s" % (os.path.abspath(patch), os.path.abspath(patch)))
+        # the checks are run against a scratch worktree carrying the patch (VERIF_REPO), so /repo itself is
+        # never modified and several seeds can be examined while other work goes on
+        wt2 = "/tmp/seedrun-%d" % os.getpid()
+        sh("git -C /repo worktree add -q --detach %s HEAD" % wt2)
         try:
+            rc, out = sh("git apply %s || git apply --3way %s" % (os.path.abspath(patch), os.path.abspath(patch)), cwd=wt2)
             for c in checks:
                 t = time.time()
-                rc, out = sh("./check %s --tier quick" % c, cwd=VERIF, timeout=3600)
+                p2 = subprocess.run("./check %s --tier quick" % c, shell=True, cwd=VERIF, env=dict(ENV, VERIF_REPO=wt2, VERIF_NO_EVIDENCE="1"),
+                                    capture_output=True, text=True, timeout=3600)
+                out = p2.stdout + p2.stderr
                 viol = [l for l in out.splitlines() if l.startswith("VIOLATION")]
                 clauses = sorted(set(re.findall(r"clause=([\w-]+)", out)))
-                detected[c] = {"exit": rc, "violations": len(viol), "clauses": clauses, "wall_s": round(time.time() - t, 1)}
-                if rc == 2:
+                detected[c] = {"exit": p2.returncode, "violations": len(viol), "clauses": clauses, "wall_s": round(time.time() - t, 1)}
+                if p2.returncode == 2:
                     detected[c]["tail"] = out[-600:]
         finally:
-            sh("git -C /repo reset -q --hard HEAD")
-            sh("git -C /repo clean -fdq")
+            sh("git -C /repo worktree remove --force %s" % wt2)
     res["checks"] = detected
     out_dir = os.path.join(VERIF, "seeded", name)
     os.makedirs(out_dir, exist_ok=True)
